@@ -91,16 +91,22 @@ def decode_one(t, xid, body):
                     ln, = struct.unpack_from("!H", b, off)
                     if ln < 88 or off + ln > len(b): l = None; break
                     prio, = struct.unpack_from("!H", b, off + 52)
-                    cookie, = struct.unpack_from("!Q", b, off + 64)
-                    l.append([prio, cookie, _mkey(b[off + 4:off + 44])]); off += ln
+                    cookie, pkts, byts = struct.unpack_from("!QQQ", b, off + 64)
+                    l.append([prio, cookie, _mkey(b[off + 4:off + 44]), pkts, byts]); off += ln
                 r["body"] = bad if l is None else {"k": "flows", "l": l}
-            elif st == 2: r["body"] = {"k": "aggregate", "n": struct.unpack_from("!L", b, 16)[0]} if len(b) == 24 else bad
+            elif st == 2:
+                if len(b) == 24:
+                    pk, by, n = struct.unpack_from("!QQL", b, 0)
+                    r["body"] = {"k": "aggregate", "n": n, "packets": pk, "bytes": by}
+                else: r["body"] = bad
             elif st == 3:
                 if len(b) == 64:
                     mx, active, lookup, matched = struct.unpack_from("!LLQQ", b, 40)
                     r["body"] = {"k": "table", "v": [mx, active, lookup, matched]}
                 else: r["body"] = bad
-            elif st == 4: r["body"] = bad if len(b) % 104 else {"k": "ports", "l": [struct.unpack_from("!H", b, i)[0] for i in range(0, len(b), 104)]}
+            elif st == 4:
+                r["body"] = bad if len(b) % 104 else {"k": "ports", "l": [[struct.unpack_from("!H", b, i)[0]] + list(struct.unpack_from("!QQQQ", b, i + 8))
+                                                                       for i in range(0, len(b), 104)]}
             elif st == 5: r["body"] = bad if len(b) % 32 else {"k": "queues", "n": len(b) // 32}
             else: r["body"] = {"k": "raw", "len": len(b)}
             return r
@@ -186,10 +192,11 @@ class C13(Check):
     lean_targets = ["drv_c13"]
     driver = "drv_c13"
     theorems = ["Pox.C13.dispatch_agrees", "Pox.C13.classes_agree", "Pox.C13.requests_handled", "Pox.C13.consts_spec",
-                "Pox.C13.one_reply", "Pox.C13.stats_spec", "Pox.C13.silent_kinds", "Pox.C13.handled", "Pox.C13.never_fails", "Pox.C13.order", "Pox.C13.stream_concat",
+                "Pox.C13.one_reply", "Pox.C13.stats_spec", "Pox.C13.oversize_entry_fails", "Pox.C13.silent_kinds", "Pox.C13.handled_partial", "Pox.C13.never_fails_partial", "Pox.C13.order", "Pox.C13.stream_concat",
                 "Pox.C13.barrier_after", "Pox.C13.errors_spec", "Pox.C13.replies_carry_xid", "Pox.C13.set_config_visible",
                 "Pox.C13.unhandled_type_fails",
-                "Pox.C13.history_answered", "Pox.C13.allAnswered_index", "Pox.C13.history_barrier", "Pox.C13.step_cases", "Pox.C13.history_ident",
+                "Pox.C13.history_answered_partial", "Pox.C13.history_events_partial", "Pox.C13.rejected_answered", "Pox.C13.runEv_msgs",
+                "Pox.C13.flow_mod_bad_action_defect", "Pox.C13.step_fit", "Pox.C13.allAnswered_index", "Pox.C13.history_barrier", "Pox.C13.step_cases", "Pox.C13.history_ident",
                 "Pox.C13.features_after_history", "Pox.C13.config_after_history"]
     anchors = [("pox/datapaths/switch.py", "SoftwareSwitchBase." + m) for m in (
                    "__init__", "rx_message", "send", "_rx_hello", "_rx_echo_request", "_rx_features_request", "_rx_flow_mod", "_rx_packet_out",
@@ -239,6 +246,8 @@ class C13(Check):
         from pox.lib.addresses import EthAddr, IPAddr
         from pox.datapaths.switch import OFConnection
         self.swnet, self.of, self.EthAddr, self.IPAddr, self.OFConnection = swnet, of, EthAddr, IPAddr, OFConnection
+        from pox.lib.packet.ethernet import ethernet
+        self.ethernet = ethernet
 
     # ------------------------------------------------------------------ real node
 
@@ -263,7 +272,7 @@ class C13(Check):
         return {"dpid": sw.dpid, "max_buffers": sw.max_buffers, "max_entries": sw.max_entries, "caps": sw.features.capability_bits,
                 "actions": sw.features.action_bits, "miss": sw.miss_send_len, "flags": sw.config_flags,
                 "ports": [[p.port_no, int.from_bytes(p.hw_addr.toRaw(), "big"), p.config, p.state] for p in sw.ports.values()],
-                "port_stats": list(sw.port_stats.keys())}
+                "port_stats": [[no, ps.rx_packets, ps.tx_packets, ps.rx_bytes, ps.tx_bytes] for no, ps in sw.port_stats.items()]}
 
     # ------------------------------------------------------------------ message spec -> bytes
 
@@ -317,7 +326,8 @@ class C13(Check):
             elif st == "queue": body = of.ofp_queue_stats_request(port_no=m["port"], queue_id=m["queue"])
             else: raise KeyError(st)
             return of.ofp_stats_request(xid=x, flags=m.get("sflags", 0), body=body).pack()
-        if k == "unhandled": return bytes.fromhex(m["raw"])
+        if k in ("unhandled", "bad"): return bytes.fromhex(m["raw"])
+        if k == "traffic": return b""
         raise KeyError(k)
 
     # ------------------------------------------------------------------ generators
@@ -335,7 +345,7 @@ class C13(Check):
         pool = live * 3 + st["deleted"] + [0, 99, 5, OFPP_MAX, OFPP_IN_PORT, OFPP_FLOOD, OFPP_ALL, OFPP_CONTROLLER, OFPP_LOCAL, OFPP_NONE, rng.randint(0, U16)]
         return rng.choice(pool)
 
-    def _acts(self, rng, st, allow_ctl=True):
+    def _acts(self, rng, st, allow_ctl=True, unsupported=0.15):
         n = rng.choice([0, 1, 1, 2, 3, rng.randint(0, 6)])
         out = []
         for _ in range(n):
@@ -346,8 +356,8 @@ class C13(Check):
                 if p == OFPP_CONTROLLER and not allow_ctl: p = OFPP_FLOOD
                 out.append([0, p])
             elif r < 0.55 and allow_ctl: out.append([0, OFPP_CONTROLLER])
-            elif r < 0.85: out.append([rng.choice([1, 2, 3, 4, 5, 6, 7, 8, 9, 10]), rng.randint(0, U16)])
-            elif r < 0.93: out.append([0xffff, rng.randint(0, U32)])
+            elif r < 1 - unsupported: out.append([rng.choice([1, 2, 3, 4, 5, 6, 7, 8, 9, 10]), rng.randint(0, U16)])
+            elif r < 1 - unsupported / 2: out.append([0xffff, rng.randint(0, U32)])
             else: out.append([rng.choice([12, 13, 100, 0xfffe, rng.randint(12, 0xfffe)]), 0])
         return out
 
@@ -388,7 +398,7 @@ class C13(Check):
             m.update(cmd=rng.choice([0, 0, 0, 1, 2, 3, 4, 5, 9, ofgen.rint(rng, U16)]), mkey=self._mk(rng, st), prio=rng.choice([0, 1, 1, 0x8000, 0x8000, U16, rng.randint(0, 5)]),
                      cookie=rng.randint(0, 1 << 40), flags=rng.choice([0, 0, 0, 1, 1, 2, 3, 4, 5, 7, rng.randint(0, 7)]), idle=rng.choice([0, 0, 0, 5]),
                      hard=rng.choice([0, 0, 0, 9]), out_port=rng.choice([OFPP_NONE, OFPP_NONE, 1, 2, self._port_choice(rng, st)]), bid=bid,
-                     acts=self._acts(rng, st, allow_ctl=True))
+                     acts=self._acts(rng, st, allow_ctl=True, unsupported=0.02))
             if ctx.get("focus"):                                        # flows whose outputs later statistics requests filter on
                 m.update(cmd=rng.choice([0, 0, 0, 0, 1, 2, 3, 4]), flags=rng.choice([0, 0, 1, 2]), prio=rng.choice([1, 2, 3, 0x8000, rng.randint(0, 9)]),
                          acts=[[0, rng.choice(self.FOCUS_PORTS)] for _ in range(rng.choice([0, 1, 1, 1, 2]))] + ([[3, 0]] if rng.random() < 0.2 else []),
@@ -423,6 +433,47 @@ class C13(Check):
             m.update(ty=t, raw=raw.hex(), xid=struct.unpack_from("!L", raw, 4)[0])
         return m
 
+    BAD_LEN = [(18, 4), (5, 8), (15, 8), (9, 0), (14, 32), (7, 2), (13, 4), (20, 0), (4, 0), (16, 0)]    # (type, body bytes) the decoder cannot accept
+
+    def gen_bad(self, rng, why=None):
+        """a message OFConnection.read rejects by itself: unknown type, undecodable / ill-sized body"""
+        why = why or rng.choice(["type", "len", "len"])
+        x = rng.randint(1, U32)
+        if why == "type":
+            t, body = rng.choice([22, 23, 100, 255, rng.randint(22, 255)]), ofgen.rbytes(rng, rng.choice([0, 0, 4, 8, 60, 100]))
+        elif why == "len":
+            t, n = rng.choice(self.BAD_LEN + [(16, -1), (16, -2)])
+            if n == -1: body = struct.pack("!HH", 1, 0)                  # flow stats request without its body
+            elif n == -2: body = struct.pack("!HH", 4, 0) + b"\0\0"      # port stats request, 2 of 8 body bytes
+            else: body = bytes(n)
+        else:
+            t, body = rng.choice([0, 2, 5, 18]), b""
+        raw = struct.pack("!BBHL", 1 if why != "version" else rng.choice([0, 2, 4, 0x81]), t, 8 + len(body), x) + body
+        return {"k": "bad", "why": why, "xid": x, "raw": raw.hex()}
+
+    def gen_traffic(self, rng, st):
+        live = [p for p in st["ports"] if p not in st["deleted"]] or [1]
+        return {"k": "traffic", "xid": 0, "port": rng.choice(live * 4 + [99]), "len": rng.choice([14, 60, 64, 100, 1500, rng.randint(14, 300)]), "src": rng.randint(0, 5)}
+
+    def weave(self, rng, st, msgs, mode):
+        """interleave what changes the reported data with repeated requests, and rejected messages at every position"""
+        out = []
+        for m in msgs:
+            out.append(m)
+            if mode == "step" and m["k"] == "stats_request" and m["st"] in ("port", "flow", "aggregate", "table") and rng.random() < 0.5:
+                # poll again after the counters moved, nothing else in between
+                mover = self.gen_traffic(rng, st) if rng.random() < 0.6 else \
+                    {"k": "packet_out", "xid": self._xid(rng), "bid": None, "data": True, "in_port": OFPP_NONE,
+                     "acts": [[0, m["port"] if (m["st"] == "port" and m["port"] < OFPP_MAX) else rng.choice([1, 2, OFPP_FLOOD])]]}
+                again = dict(m, xid=self._xid(rng))
+                out += [mover] * rng.choice([1, 1, 2]) + [again]
+            elif mode == "step" and rng.random() < 0.08:
+                out.append(self.gen_traffic(rng, st))
+        k = rng.choice([0, 0, 1, 1, 2, 3])
+        for _ in range(k):
+            out.insert(rng.choice([0, len(out), len(out) // 2, rng.randint(0, len(out))]), self.gen_bad(rng))
+        return out
+
     def gen_case(self, rng, n, mode, buffers=True, unhandled=False, focus=False):
         st = copy.deepcopy(rng.choice(self.STATES + [self.STATES[0]] * 3))
         if rng.random() < 0.3:
@@ -443,16 +494,19 @@ class C13(Check):
                 msgs.append(m)
         else:
             msgs = [self.gen_msg(rng, st, ctx, buffers=buffers and mode == "step", unhandled=unhandled) for _ in range(n)]
+        if rng.random() < 0.6: msgs = self.weave(rng, st, msgs, mode)
+        if rng.random() < 0.03: msgs.append(self.gen_bad(rng, "version"))
         case = {"state": st, "mode": mode, "msgs": msgs}
         if mode == "batch":
             used = set()
             for m in msgs:                                    # unique non-zero xids so that replies can be paired by xid
-                if m["k"] == "unhandled": continue
+                if m["k"] in ("unhandled", "bad"):
+                    used.add(m["xid"]); continue
                 while m["xid"] in used or m["xid"] == 0:
                     m["xid"] = rng.randint(1, U32)
                 used.add(m["xid"])
             total = sum(len(self.to_bytes(m)) for m in msgs)
-            k = rng.choice([0, 0, 1, 3, rng.randint(0, 12)])
+            k = rng.choice([0, 0, 0, 1, 3, rng.randint(0, 12)])
             case["cuts"] = sorted(rng.randint(1, max(1, total - 1)) for _ in range(k))
         return case
 
@@ -537,6 +591,44 @@ class C13(Check):
             total = sum(len(self.to_bytes(m)) for m in sq2)
             c["cuts"] = list(range(1, total))
             cases.append(c)
+        # the reply reports the state AT THE MOMENT of the request: same request again after the counters moved
+        ps = lambda x, p: {"k": "stats_request", "xid": x, "st": "port", "port": p}
+        po = lambda x, p: {"k": "packet_out", "xid": x, "bid": None, "data": True, "in_port": OFPP_NONE, "acts": [[0, p]]}
+        tr = lambda port, n=60: {"k": "traffic", "xid": 0, "port": port, "len": n, "src": 3}
+        polls = [
+            [ps(1, 2), po(2, 2), ps(3, 2), {"k": "barrier_request", "xid": 4}, po(5, 2), po(6, 2), ps(7, 2), ps(8, OFPP_NONE), ps(9, 2)],
+            [ps(1, 1), tr(1), ps(2, 1), tr(1, 100), tr(2), ps(3, 1), ps(4, 2), ps(5, 2)],
+            [fm(1, 0, 1, 5, acts=[(0, 2)], ck=11), fm(2, 0, None, 1, acts=[(0, OFPP_FLOOD)], ck=12), tbl, fl, ag, tr(1), tbl, fl, ag, tr(3, 200), tr(3), tbl, fl, ag,
+             {"k": "stats_request", "xid": 903, "st": "aggregate", "mkey": None, "table_id": 0xff, "out_port": OFPP_NONE}, tr(1), tr(1),
+             {"k": "stats_request", "xid": 904, "st": "aggregate", "mkey": None, "table_id": 0xff, "out_port": OFPP_NONE}, ps(905, 2), ps(906, 2)],
+        ]
+        for sq in polls:
+            sq2 = [copy.deepcopy(m) for m in sq]
+            for i, m in enumerate(sq2):
+                if m["k"] != "traffic": m["xid"] = 2000 + i
+            one(S[0], sq2)
+        # messages the connection rejects, at every position of one read (and one by one)
+        bar = lambda x: {"k": "barrier_request", "xid": x}
+        brng = random.Random(131)
+        for why in ("type", "len", "len", "len"):
+            bad = lambda: self.gen_bad(brng, why)
+            for sq in ([bad(), bar(11), ps(12, 1)], [bar(11), bad(), ps(12, 1)], [bar(11), ps(12, 1), bad()], [bar(11), bad(), bad(), ps(12, OFPP_NONE), bad(), bar(13)]):
+                one(S[0], [copy.deepcopy(m) for m in sq], "batch")
+                one(S[0], [copy.deepcopy(m) for m in sq], "step")
+                c = {"state": copy.deepcopy(S[0]), "mode": "batch", "msgs": [copy.deepcopy(m) for m in sq]}
+                c["cuts"] = [len(self.to_bytes(sq[0])) + 3]
+                cases.append(c)
+        one(S[0], [self.gen_bad(brng, "version")], "batch"); one(S[0], [bar(5), self.gen_bad(brng, "version")], "batch")
+        one(S[0], [self.gen_bad(brng, "version")], "step"); one(S[0], [bar(5), ps(6, 1), self.gen_bad(brng, "version")], "step")
+        # a table too large for one statistics message: 800 flows, then flow / aggregate / table statistics and a barrier
+        big = [fm(10 + i, 0, (i % 4) + 1, i, 1 if i % 7 == 0 else 0, acts=[(0, 1 + i % 3)] + ([(4, 5)] if i % 5 == 0 else []), ck=5000 + i) for i in range(800)]
+        big += [{"k": "stats_request", "xid": 7001, "st": "flow", "mkey": None, "table_id": 0xff, "out_port": OFPP_NONE},
+                {"k": "stats_request", "xid": 7002, "st": "flow", "mkey": 2, "table_id": 0, "out_port": 1},
+                {"k": "stats_request", "xid": 7003, "st": "aggregate", "mkey": None, "table_id": 0, "out_port": OFPP_NONE},
+                {"k": "stats_request", "xid": 7004, "st": "table"}, bar(7005), tr(1), tr(2),
+                {"k": "stats_request", "xid": 7006, "st": "flow", "mkey": None, "table_id": 0, "out_port": OFPP_NONE}, bar(7007)]
+        one(S[0], big)
+        one(S[0], [m for m in big if m["k"] != "traffic"], "batch")
         for _ in range(40):
             cases.append(self.gen_case(rng, rng.randint(1, 6), "step"))
         return cases
@@ -561,15 +653,38 @@ class C13(Check):
 
     # ------------------------------------------------------------------ implementation
 
+    def snapshot(self, node):
+        """the counters the statistics replies report, read off the live switch (port_stats order, table order)"""
+        sw = node.sw
+        def mkey(m):
+            return None if (m.wildcards & 1) else m.in_port
+        return {"ports": [[no, ps.rx_packets, ps.tx_packets, ps.rx_bytes, ps.tx_bytes] for no, ps in sw.port_stats.items()],
+                "flows": [[e.priority, e.cookie, mkey(e.match), e.packet_count, e.byte_count] for e in sw.table.entries],
+                "lookup": sw._lookup_count, "matched": sw._matched_count, "buffers": [0 if b is None else 1 for b in sw._packet_buffer]}
+
+    @staticmethod
+    def traffic_frame(op):
+        n = max(14, op["len"])
+        return (bytes([0, 0, 0, 0, 0, 2, 0, 0, 0, 0, 0, op.get("src", 1) % 250 + 1, 0x88, 0xb5]) + bytes(i & 0xff for i in range(n - 14)))
+
     def impl(self, case):
         node = self.make_node(case["state"])
         excs = []
         orig = node.ofc._error_handler
         ERRX = self.OFConnection.ERR_EXCEPTION
         def eh(reason, info):
-            excs.append(type(info[0]).__name__ if reason == ERRX else "protocol-error-%d" % reason)
+            if reason == ERRX: excs.append(type(info[0]).__name__)     # a handler raised; protocol-level rejections are answered, not failures
             return orig(reason, info)
         node.ofc._error_handler = eh
+        # the state at the moment each message was handled: snapshot after every call of the switch's message handler
+        after = []
+        inner = node.ofc.on_message_received
+        def handler(con, msg):
+            try:
+                return inner(con, msg)
+            finally:
+                after.append(self.snapshot(node))
+        node.ofc.on_message_received = handler
         w = node.w
         def take():
             b = bytes(w.send_buf); w.send_buf = b""
@@ -581,23 +696,36 @@ class C13(Check):
             except Exception as e:
                 w.receive_buf = b""
                 return "raise:" + type(e).__name__
-        raws = [self.to_bytes(m) for m in case["msgs"]]
+        init = self.snapshot(node)
+        msgs = case["msgs"]
+        raws = [self.to_bytes(m) for m in msgs]
         if case["mode"] == "step":
-            groups = []
-            for raw in raws:
-                del excs[:]
+            groups, cur = [], init
+            for m, raw in zip(msgs, raws):
+                del excs[:]; del after[:]
+                if m["k"] == "traffic":
+                    fr = self.traffic_frame(m)
+                    try:
+                        node.sw.rx_packet(self.ethernet(fr), m["port"], packet_data=fr); st = "ok"
+                    except Exception as e:
+                        st = "raise:" + type(e).__name__
+                    w_out = take()
+                    cur = self.snapshot(node)
+                    groups.append({"out": decode_stream(w_out), "exc": [], "st": "ok" if st == "ok" else "traffic-" + st, "snap": cur, "calls": 0})
+                    continue
                 st = push(raw)
-                if w.closed: st = "closed"
-                groups.append({"out": decode_stream(take()), "exc": list(excs), "st": st})
-            return {"mode": "step", "groups": groups, "alive": not w.closed, "left": len(w.receive_buf), "final": self.final_state(node)}
+                if w.closed or w._shutdown_send: st = "closed"
+                if after: cur = after[-1]
+                groups.append({"out": decode_stream(take()), "exc": list(excs), "st": st, "snap": cur, "calls": len(after)})
+            return {"mode": "step", "init": init, "groups": groups, "alive": not (w.closed or w._shutdown_send), "left": len(w.receive_buf), "final": self.final_state(node)}
         stream = b"".join(raws)
         cuts = sorted(set(c for c in case.get("cuts", []) if 0 < c < len(stream)))
         out, sts, prev = b"", [], 0
         for c in cuts + [len(stream)]:
             sts.append(push(stream[prev:c])); prev = c
             out += take()
-        return {"mode": "batch", "stream": decode_stream(out), "exc": list(excs), "st": sorted(set(sts)), "alive": not w.closed, "left": len(w.receive_buf),
-                "final": self.final_state(node)}
+        return {"mode": "batch", "init": init, "snaps": list(after), "stream": decode_stream(out), "exc": list(excs), "st": sorted(set(sts)), "alive": not (w.closed or w._shutdown_send),
+                "left": len(w.receive_buf), "final": self.final_state(node)}
 
     def final_state(self, node):
         """abstraction of the real switch object after the sequence (compared with the model's final state)"""
@@ -615,11 +743,54 @@ class C13(Check):
                    "idle", "hard", "out_port", "st", "table_id", "queue", "stype", "ty"}
 
     def model_request(self, case):
-        msgs = [{k: v for k, v in m.items() if k in self._MODEL_KEYS} for m in case["msgs"]]
-        return {"state": self.model_state(case["state"]), "msgs": msgs}
+        return None          # see model_request2: the data path is not modelled, its observed counters are fed to the model
+
+    @staticmethod
+    def _sync(snap, buffers):
+        return {"k": "traffic", "xid": 0, "ports": snap["ports"], "flows": [[f[3], f[4]] for f in snap["flows"]], "lookup": snap["lookup"],
+                "matched": snap["matched"], "buffers": snap["buffers"] if buffers else None}
+
+    def op_snaps(self, case, obs):
+        """snapshot after each op, or None when the handler-call count does not match the decodable messages"""
+        msgs = case["msgs"]
+        if obs["mode"] == "step":
+            return [g["snap"] for g in obs["groups"]]
+        out, it, cur = [], iter(obs["snaps"]), obs["init"]
+        for m in msgs:
+            if m["k"] != "bad":
+                cur = next(it, None)
+                if cur is None: return None
+            out.append(cur)
+        return out
+
+    def model_request2(self, case, obs):
+        snaps = self.op_snaps(case, obs)
+        if snaps is None: return None
+        evs, starting = [], True
+        for m, snap in zip(case["msgs"], snaps):
+            k = m["k"]
+            if k == "traffic":
+                evs.append(self._sync(snap, True)); continue
+            if k == "bad":
+                if m["why"] == "version": evs.append({"k": "bad_version", "xid": m["xid"], "starting": starting})
+                else: evs.append({"k": "rejected", "xid": m["xid"], "code": 1 if m["why"] == "type" else 6})
+            else:
+                e = {kk: v for kk, v in m.items() if kk in self._MODEL_KEYS}
+                if "acts" in e: e["acts"] = [[a[0], a[1], len(self._action(a).pack())] for a in e["acts"]]
+                evs.append(e)
+                starting = False
+            evs.append(self._sync(snap, False))       # counters as the data path left them (packet_out / buffered packets move them)
+        st = self.model_state(case["state"])
+        return {"state": st, "msgs": evs}
 
     def model_obs(self, case, resp):
         if "groups" not in resp: return resp
+        # drop the groups of the counter-sync events inserted after every message
+        keep, i = [], 0
+        for m in case["msgs"]:
+            keep.append(resp["groups"][i] if i < len(resp["groups"]) else {"missing": True})
+            i += 1 if m["k"] == "traffic" else 2
+        resp = dict(resp, groups=keep)
         if case["mode"] == "step": return {"groups": resp["groups"], "final": resp.get("final")}
         return {"stream": [r for g in resp["groups"] for r in g.get("out", [])], "final": resp.get("final")}
 
@@ -629,7 +800,8 @@ class C13(Check):
 
     def impl_view(self, case, obs):
         if obs["mode"] == "step":
-            return {"groups": [({"fail": g["exc"][0]} if g["exc"] else {"out": [self._strip(r) for r in g["out"]]}) for g in obs["groups"]], "final": obs["final"]}
+            return {"groups": [({"out": []} if m["k"] == "traffic" else {"fail": g["exc"][0]} if g["exc"] else {"out": [self._strip(r) for r in g["out"]]})
+                               for m, g in zip(case["msgs"], obs["groups"])], "final": obs["final"]}
         return {"stream": [self._strip(r) for r in obs["stream"]], "final": obs["final"]}
 
     # ------------------------------------------------------------------ oracle (independent of the model)
@@ -639,8 +811,38 @@ class C13(Check):
         ctx: what the oracle itself tracks: config set so far, live buffer ids (None = not tracked), hello seen, ports."""
         k, x = m["k"], m["xid"]
         tag = k
-        if k == "unhandled":
-            return None                                                 # outside the 13 controller-to-switch types
+        if k in ("unhandled", "traffic"):
+            return None                                                 # outside the 13 controller-to-switch types / not a message
+        snap = ctx.get("snap")                                          # counters at the moment of this request (None = unknown)
+        if k == "bad":
+            tag = "bad-message:%s" % m["why"]
+            if m["why"] == "version":
+                want = [(0, 0)] if ctx["starting"] else []
+                got = [(r.get("etype"), r.get("code")) for r in R]
+                if got != want: return "%s:%s | expected %s got %s" % (tag, "no-reply" if not got else "wrong-reply", want, got)
+                if R and R[0].get("xid") != x: return "%s:reply-xid-differs | sent %d got %s" % (tag, x, R[0].get("xid"))
+                return None
+            want = (1, 1) if m["why"] == "type" else (1, 6)
+            if len(R) == 0: return "%s:no-reply | expected BAD_REQUEST %s for xid %d" % (tag, want, x)
+            if len(R) > 1: return "%s:%d-replies | %s" % (tag, len(R), [r["t"] for r in R])
+            r = R[0]
+            if r["t"] != "error" or (r["etype"], r["code"]) != want: return "%s:wrong-reply | expected error %s got %s" % (tag, want, self._strip(r))
+            if r["xid"] != x: return "%s:reply-xid-differs | sent %d got %d" % (tag, x, r["xid"])
+            n = min(64, len(raw))
+            if bytes.fromhex(r["data"]) != raw[:n]: return "%s:error-data-not-the-offending-message | %s" % (tag, r["data"][:40])
+            return None
+        ctx["starting"] = False
+        if k == "stats_request" and len(R) > 1 and all(r["t"] == "stats_reply" for r in R):
+            # a multipart answer: same xid and type on every part, REPLY_MORE on all but the last; checked as one reply
+            if any(r["xid"] != x for r in R): return "stats_request:%s:multipart-xid-differs | %s" % (m["st"], [r["xid"] for r in R])
+            if len({r["stype"] for r in R}) != 1: return "stats_request:%s:multipart-type-differs | " % m["st"]
+            if [r.get("flags", 0) & 1 for r in R] != [1] * (len(R) - 1) + [0]: return "stats_request:%s:multipart-more-flags | %s" % (m["st"], [r.get("flags", 0) for r in R])
+            kinds = {r["body"]["k"] for r in R}
+            if kinds <= {"flows"} or kinds <= {"ports"}:
+                merged = dict(R[-1]); merged["body"] = {"k": R[0]["body"]["k"], "l": [e for r in R for e in r["body"]["l"]]}
+                R = [merged]
+        elif k == "stats_request" and len(R) == 1 and R[0]["t"] == "stats_reply" and R[0].get("flags", 0) & 1:
+            return "stats_request:%s:more-flag-on-last-part | " % m["st"]
         if exc:
             what = {"stats_request": lambda: "stats_request:%s" % m["st"], "flow_mod": lambda: "flow_mod:cmd-%s" % ("valid" if m["cmd"] <= 4 else "unknown")}
             return "%s:internal-failure:%s | xid=%d" % (what.get(k, lambda: k)(), exc[0], x)
@@ -713,23 +915,50 @@ class C13(Check):
             if st == "desc": return one(body_is("desc"), "desc reply")
             if st == "table":
                 return one(body_is("table", lambda b: "max-entries-differs" if b["v"][0] != ctx["state"]["max_entries"] else
-                                   ("active-count-differs | installed %d" % len(ctx["table"].flows) if b["v"][1] != len(ctx["table"].flows) else None)), "table reply")
+                                   ("active-count-differs | installed %d" % len(ctx["table"].flows) if b["v"][1] != len(ctx["table"].flows) else
+                                    ("lookup-matched-counters-stale | switch has %s" % [snap["lookup"], snap["matched"]]
+                                     if snap is not None and b["v"][2:] != [snap["lookup"], snap["matched"]] else None))), "table reply")
             if st in ("flow", "aggregate"):
                 foreign = m["table_id"] not in (0, 0xff)
                 if foreign: tag += ":foreign-table"
                 want = ctx["table"].stats_select(m["mkey"], m["table_id"], m["out_port"])
                 flt = "out_port-%s" % ("none" if m["out_port"] == OFPP_NONE else "physical" if m["out_port"] < OFPP_MAX else "virtual")
+                key = lambda l: sorted((e[0], e[1], -1 if e[2] is None else e[2]) for e in l)
+                exp = [[f["prio"], f["cookie"], f["mkey"]] for f in want]
+                # the counters of the selected entries as the switch holds them at this moment
+                ctrs = None
+                if snap is not None:
+                    pool = {}
+                    for e in snap["flows"]: pool.setdefault((e[0], e[1], e[2]), []).append((e[3], e[4]))
+                    try: ctrs = sorted((f["prio"], f["cookie"], -1 if f["mkey"] is None else f["mkey"]) + pool[(f["prio"], f["cookie"], f["mkey"])].pop(0) for f in want)
+                    except (KeyError, IndexError): ctrs = None
                 if st == "flow":
-                    key = lambda l: sorted((e[0], e[1], -1 if e[2] is None else e[2]) for e in l)
-                    exp = [[f["prio"], f["cookie"], f["mkey"]] for f in want]
-                    return one(body_is("flows", lambda b: "flows-for-foreign-table" if (foreign and b["l"]) else
-                                       (None if key(b["l"]) == key(exp) else "flow-list-differs:%s | expected (priority, cookie, in_port) %s" % (flt, exp))), "flow reply")
-                return one(body_is("aggregate", lambda b: "nonzero-for-foreign-table" if (foreign and b["n"]) else
-                                   (None if b["n"] == len(want) else "flow-count-differs:%s | expected %d" % (flt, len(want)))), "aggregate reply")
+                    def chk(b):
+                        if foreign and b["l"]: return "flows-for-foreign-table"
+                        if key(b["l"]) != key(exp): return "flow-list-differs:%s | expected (priority, cookie, in_port) %s" % (flt, exp)
+                        if ctrs is not None and sorted((e[0], e[1], -1 if e[2] is None else e[2], e[3], e[4]) for e in b["l"]) != ctrs:
+                            return "flow-counters-stale | switch has %s" % ctrs
+                        return None
+                    return one(body_is("flows", chk), "flow reply")
+                def chka(b):
+                    if foreign and b["n"]: return "nonzero-for-foreign-table"
+                    if b["n"] != len(want): return "flow-count-differs:%s | expected %d" % (flt, len(want))
+                    if ctrs is not None and [b["packets"], b["bytes"]] != [sum(c[3] for c in ctrs), sum(c[4] for c in ctrs)]:
+                        return "aggregate-counters-stale | switch has %s" % [sum(c[3] for c in ctrs), sum(c[4] for c in ctrs)]
+                    return None
+                return one(body_is("aggregate", chka), "aggregate reply")
             if st == "port":
                 p = m["port"]
-                if p == OFPP_NONE: return one(body_is("ports", lambda b: None if sorted(b["l"]) == sorted(ctx["stat_ports"]) else "port-list-differs"), "port reply")
-                if p in ctx["stat_ports"]: return one(body_is("ports", lambda b: None if b["l"] == [p] else "port-list-differs"), "port reply")
+                def chkp(wantports):
+                    def c(b):
+                        if sorted(e[0] for e in b["l"]) != sorted(wantports): return "port-list-differs"
+                        if snap is not None:
+                            cur = sorted(e for e in snap["ports"] if e[0] in wantports)
+                            if sorted(b["l"]) != cur: return "port-counters-stale | switch has %s" % cur
+                        return None
+                    return c
+                if p == OFPP_NONE: return one(body_is("ports", chkp(ctx["stat_ports"])), "port reply")
+                if p in ctx["stat_ports"]: return one(body_is("ports", chkp([p])), "port reply")
                 tag += ":unknown-port"
                 # the standard names no error for this: one (empty) reply or one error
                 return one(lambda r: None if (r["t"] == "error" or (r["t"] == "stats_reply" and r["stype"] == 4 and r["body"] == {"k": "ports", "l": []})) else "neither-empty-reply-nor-error", "reply or error")
@@ -786,6 +1015,12 @@ class C13(Check):
                         return "%s:unknown-buffer:%s | buffer_id=%d, expected BAD_REQUEST/%s, got %s" % (
                             k, "silent" if not codes else "wrong-error", m["bid"], "BUFFER_EMPTY" if want[1] == 7 else "BUFFER_UNKNOWN", codes)
                     return None
+            if k == "flow_mod" and m["cmd"] <= 2 and unsupported and executed is not True and ok_codes is None:
+                # OpenFlow 1.0 §5.4.2 (OFPET_BAD_ACTION): a flow_mod with an action type the switch does not implement is refused
+                if codes != [(2, 0)]:
+                    return "flow_mod:unsupported-action:%s | action types %s, expected BAD_ACTION/BAD_TYPE, got %s" % (
+                        "installed-silently" if not codes else "wrong-error", [a[0] for a in unsupported], codes)
+                return None
             if executed is False and codes: return "%s:unexpected-error | %s" % (k, codes)
             if executed and unsupported and codes != [(2, 0)]:
                 return "%s:unsupported-action:%s | expected BAD_ACTION/BAD_TYPE got %s" % (k, "no-reply" if not codes else "wrong-error", codes)
@@ -797,22 +1032,34 @@ class C13(Check):
         st = case["state"]
         live_ports = [p for p in st["ports"] if p not in st["deleted"]]
         ctx = {"hello": False, "config": (0, st["miss"]), "ports": live_ports, "stat_ports": list(st["ports"]), "state": st, "table": SpecTable(st["max_entries"]),
-               "hw": self._hw_cache(st), "live": set() if case["mode"] == "step" else None}
+               "hw": self._hw_cache(st), "live": set() if case["mode"] == "step" else None, "starting": True, "snap": obs.get("init")}
         raws = [self.to_bytes(m) for m in case["msgs"]]
-        if not obs["alive"]: return "connection-closed"
-        if obs.get("left"): return "input-not-consumed | %d bytes" % obs["left"]
+        closing = bool(case["msgs"]) and case["msgs"][-1]["k"] == "bad" and case["msgs"][-1].get("why") == "version"
+        if closing:
+            if obs["alive"]: return "bad-message:version:connection-left-open"
+        elif not obs["alive"]: return "connection-closed"
+        if obs.get("left") and not closing: return "input-not-consumed | %d bytes" % obs["left"]
         if case["mode"] == "step":
             if len(obs["groups"]) != len(case["msgs"]): return "harness: group count"
             for m, g, raw in zip(case["msgs"], obs["groups"], raws):
-                if g["st"] != "ok": return "%s:connection-%s" % (m["k"], g["st"])
+                if m["k"] == "traffic":
+                    for r in g["out"]:
+                        if r["t"] == "packet_in" and r["bid"] is not None: ctx["live"].add(r["bid"])
+                    ctx["snap"] = g["snap"]
+                    continue
+                if g["st"] != "ok" and not (closing and m is case["msgs"][-1] and g["st"] == "closed"): return "%s:connection-%s" % (m["k"], g["st"])
+                if m["k"] not in ("bad", "unhandled") and g["calls"] != 1: return "%s:handler-called-%d-times | " % (m["k"], g["calls"])
                 R = [r for r in g["out"] if r["t"] not in ASYNC]
                 f = self._check_request(m, R, raw, ctx, g["exc"], asyncs=[r for r in g["out"] if r["t"] in ASYNC])
                 for r in g["out"]:
                     if r["t"] == "packet_in" and r["bid"] is not None: ctx["live"].add(r["bid"])
+                ctx["snap"] = g["snap"]
                 if f: return f
             return None
         # batch: pair by xid, check order, then the same per-request checks
-        if obs["st"] != ["ok"]: return "connection-%s" % obs["st"]
+        if obs["st"] != ["ok"] and not closing: return "connection-%s" % obs["st"]
+        snaps = self.op_snaps(case, obs)
+        if snaps is None and not closing: return "batch:handler-call-count | %d calls for %d messages" % (len(obs["snaps"]), sum(1 for m in case["msgs"] if m["k"] != "bad"))
         reqs = [(i, m) for i, m in enumerate(case["msgs"]) if m["k"] != "unhandled"]
         byxid = {m["xid"]: i for i, m in reqs}
         groups = {i: [] for i, _ in reqs}
@@ -830,6 +1077,7 @@ class C13(Check):
         n_unh = sum(1 for m in case["msgs"] if m["k"] == "unhandled")
         exc = [e for e in obs["exc"] if e != "RuntimeError"] if n_unh else obs["exc"]
         for i, m in reqs:
+            ctx["snap"] = (obs["init"] if i == 0 else snaps[i - 1]) if snaps is not None else None
             f = self._check_request(m, groups[i], raws[i], ctx, [])
             if f:
                 # a logged handler exception is attributed to the first request whose answer is missing or wrong
